@@ -367,18 +367,29 @@ def run(ctx):
 
 
 def run_stream(ctx, exe, lines, what, timeout):
-    """run lines through exe; returns list of output lines (padded) and index of a crash or None"""
-    if not lines:
-        return [], None
-    rc, out, err = sh2([exe], input=("\n".join(lines) + "\n").encode(), timeout=timeout)
-    res = out.decode("utf-8", "replace").split("\n")
-    if res and res[-1] == "":
-        res.pop()
-    crash = None
-    if rc != 0 or len(res) < len(lines):
-        crash = (min(len(res), len(lines) - 1), rc, err)
-        res += ["<no output>"] * (len(lines) - len(res))
-    return res, crash
+    """run lines through exe; a crash loses only the crashing line: the rest of the stream is re-run (bounded).
+    returns (outputs, crashes) with outputs[i] None for a line that crashed or was skipped"""
+    res, crashes, start = [], [], 0
+    while start < len(lines):
+        rc, out, err = sh2([exe], input=("\n".join(lines[start:]) + "\n").encode(), timeout=timeout)
+        got = out.decode("utf-8", "replace").split("\n")
+        if got and got[-1] == "":
+            got.pop()
+        got = got[:len(lines) - start]
+        res += got
+        if rc == 0 and len(res) == len(lines):
+            break
+        k = len(res)
+        if k >= len(lines):
+            crashes.append((len(lines) - 1, rc, err))    # died after the last answer (e.g. leak report at exit)
+            break
+        crashes.append((k, rc, err))
+        res.append(None)
+        start = k + 1
+        if len(crashes) >= 12:
+            res += [None] * (len(lines) - len(res))
+            break
+    return res, crashes
 
 
 def run_cases(ctx, cases, exes, drv, flavours):
@@ -398,9 +409,8 @@ def run_cases(ctx, cases, exes, drv, flavours):
                 keep.append(i)
             idx = keep
         lines = [cases[i][0] for i in idx]
-        res, crash = run_stream(ctx, exes[fl], lines, fl, 3000)
-        if crash:
-            k, rc, err = crash
+        res, crashes = run_stream(ctx, exes[fl], lines, fl, 3000)
+        for (k, rc, err) in crashes:
             ctx.violation("implementation crashed/aborted (%s build, rc=%s) on: %s :: %s" % (fl, rc, lines[k][:120], err[-400:]),
                           {"case": lines[k], "flavour": fl, "stderr": err[-3000:]},
                           signature="crash:" + lines[k].split()[0] + ":" + ("sanitizer" if "runtime error" in err or "Sanitizer" in err else "signal"))
@@ -408,11 +418,10 @@ def run_cases(ctx, cases, exes, drv, flavours):
     mout = {}
     if drv:
         lines = [cases[i][0] for i in model_idx]
-        res, crash = run_stream(ctx, drv, lines, "model", 3000)
-        if crash:
-            ctx.broken_tie("model-driver", "extracted model failed on %s: rc=%s %s" % (lines[crash[0]][:100], crash[1], crash[2][-200:]))
-        else:
-            mout = dict(zip(model_idx, res))
+        res, crashes = run_stream(ctx, drv, lines, "model", 3000)
+        for (k, rc, err) in crashes[:2]:
+            ctx.broken_tie("model-driver", "extracted model failed on %s: rc=%s %s" % (lines[k][:100], rc, err[-200:]))
+        mout = dict(zip(model_idx, res))
 
     ref = outs[flavours[0]]
     disagree = 0
@@ -430,7 +439,7 @@ def run_cases(ctx, cases, exes, drv, flavours):
         elif kind in ("layenc", "errs", "cmp"):
             for fl in flavours:
                 o = outs[fl].get(i)
-                if o is None or o == "<no output>":
+                if o is None:
                     continue
                 if kind == "layenc" and o != "layenc ok":
                     ctx.violation("tj3EncodeYUV8 does not write the documented planar layout (%s build): %s" % (fl, o),
@@ -456,7 +465,7 @@ def run_cases(ctx, cases, exes, drv, flavours):
                               {"case": line, "impl": impl, "expected": exp}, signature="size:" + kind + ":" + stream)
             for fl in flavours[1:]:
                 o = outs[fl].get(i)
-                if o is not None and impl is not None and o != impl and o != "<no output>":
+                if o is not None and impl is not None and o != impl:
                     ctx.violation("builds disagree (%s vs %s) on %s" % (flavours[0], fl, line), {"case": line, flavours[0]: impl, fl: o},
                                   signature="build-disagree:" + kind)
             if model is not None:
